@@ -327,6 +327,8 @@ fn spellings(neg: bool, d: &str, f: usize, rng: &mut Rng, all: bool) -> Vec<Stri
         v.push(format!("{sign}{ip}.0"));
         v.push(format!("{sign}{ip}."));
         v.push(format!("{sign}{ip}.000"));
+        v.push(format!("{sign}{ip}.e0"));
+        v.push(format!("{sign}{ip}.E+0"));
     } else {
         v.push(format!("{sign}{ip}.{fp}"));
         v.push(format!("{sign}{ip}.{fp}0"));
@@ -741,7 +743,7 @@ where
         let (kind, _) = kind_of(&t);
         for (ci, (min, max, def)) in configs.iter().enumerate() {
             // several ways of configuring the builder (call order is part of the configuration space)
-            for order in 0..6u32 {
+            for order in 0..8u32 {
                 // orders 4 and 5 start from NumericValue::build(): the bound that is not set is the type's own
                 let (emin, emax) = match order {
                     4 => (T::tmin(), *max),
@@ -774,7 +776,13 @@ where
                                 (4, Some(d)) => nv.build().max(*max).default(*d).finish(),
                                 (4, None) => nv.build().max(*max).finish(),
                                 (5, Some(d)) => nv.build().default(*d).min(*min).finish(),
-                                (_, None) => nv.build().min(*min).finish(),
+                                (5, None) => nv.build().min(*min).finish(),
+                                // 6: the parsed value passes through map() (e.g. a unit scaling) before it is resolved
+                                (6, Some(d)) => NumericBuilder::new(nv.map(|v| v), *max, *min).default(*d).finish(),
+                                (6, None) => NumericBuilder::new(nv.map(|v| v), *max, *min).finish(),
+                                // 7: the default is configured twice; the last call counts
+                                (7, Some(d)) => b.default(*min).default(*max).default(*d).finish(),
+                                (_, None) => b.max(*min).max(*max).finish(),
                                 _ => unreachable!(),
                             };
                             (variant, tv, fin)
